@@ -96,7 +96,9 @@ class TlcRuns:
                 raise vlib.ToolError(f"{k}: {r.violated} violated -- the specification and its own models disagree\n{r.out[-1500:]}")
         for k, r in self.res.items():
             if k.endswith("#cov"):
-                vac = [a for a in vlib.vacuous_actions(r) if a.startswith("Step") or a == "Terminal"]
+                # StepRet exists only in the code's step order, StepXU only in the repair
+                ignore = ("StepRet",) if k.startswith("CallInject_E") else ("StepXU",)
+                vac = [a for a in vlib.vacuous_actions(r, ignore=ignore) if a.startswith("Step") or a == "Terminal"]
                 if vac or not r.coverage:
                     raise vlib.ToolError(f"vacuous: actions never fired in {k}: {vac or 'no coverage parsed'}")
         return self.res
@@ -261,7 +263,7 @@ class Cmp:
 
     def bad(self, cls, action, s, c, **kw):
         script = {"session": {k: s[k] for k in ("name", "pos", "keep_bp", "extra_bps", "heal", "finish", "fault")},
-                  "cases": [c] if c else s["cases"][:4]}
+                  "cases": s["cases"] if s["fault"] else [c] if c else s["cases"][:4]}
         self.rep.mismatch(cls, action, pos=s["pos"], fn=(c or {}).get("fn"), script=script, **kw)
 
     def predicted(self, s, fp="none", fk="none"):
@@ -319,7 +321,7 @@ class Cmp:
             n0 = len(self.rep.records)
             self.count(f"{s['pos']}:{c['cls']}:{'panic' if r['ok'] is None else 'ok' if r['ok'] else 'refused'}")
             if fault and not c.get("faulty"):
-                nreq_clean = r["ptrace_requests"]
+                nreq_clean = r.get("requests") or []
             if fault and c.get("faulty"):
                 self.fault(s, c, r, nreq_clean)
                 continue
@@ -465,13 +467,19 @@ class Cmp:
     def fault(self, s, c, r, nreq_clean):
         """One ptrace request of the call failed with ESRCH: compare with the as-written machine (diagnostic only)."""
         k = s["fault"]["nth"]
-        nbp, rem = divmod(nreq_clean - len(MODEL_STEPS), 4)
-        seq = ["D"] * (2 * nbp) + MODEL_STEPS + ["E"] * (2 * nbp)
+        # align the code's request sequence (recorded for the clean probe call) with the model's steps: everything
+        # before the PEEK that precedes the first GETREGS is the disable loop, everything after X2 the enable loop
+        clean = list(nreq_clean)
+        i = clean.index(12) - 1 if 12 in clean else -1
+        seq = ["D"] * max(i, 0) + MODEL_STEPS + ["E"] * max(len(clean) - i - len(MODEL_STEPS), 0)
+        rem = 0 if i >= 0 and len(seq) == len(clean) else 1
         kinds = {"S1": (1, 2), "S2": (12,), "M5": (12,), "J5": (12,), "U5": (12,), "M3": (9,), "J3": (9,), "U3": (9,), "C3": (7,),
                  "M1": (13,), "J1": (13,), "C2": (13,), "R1": (13,), "U2": (13,), "X1": (13,), "D": (1, 2, 4, 5), "E": (1, 2, 4, 5)}
         step = seq[k] if rem == 0 and k < len(seq) else None
-        if step and r["failed_request"] not in kinds.get(step, (4, 5)):
+        if rem == 0 and any(q not in kinds.get(st, (4, 5)) for q, st in zip(clean, seq)):
             step = None                  # the code's request sequence is not the one the model lists
+        if step and r["failed_request"] not in kinds.get(step, (4, 5)):
+            step = None
         d = r["diff"] or {}
         obs = set()
         if r["ok"] is None:
